@@ -5,55 +5,21 @@
 package c13fuzz
 
 import (
-	"os"
-	"runtime/debug"
-	"strconv"
 	"testing"
 
+	"verifh/fuzz/kit"
+	"verifh/mon"
 	"verifh/wl/c13"
 )
 
-func targets(tb testing.TB) []c13.FuzzTarget {
-	seed := uint64(1)
-	if s := os.Getenv("VERIF_SEED"); s != "" {
-		if v, err := strconv.ParseUint(s, 10, 64); err == nil {
-			seed = v
-		}
-	}
-	ts, err := c13.FuzzTargets(seed)
+func targets(tb testing.TB) []mon.FuzzTarget {
+	ts, err := c13.FuzzTargets(kit.Seed())
 	if err != nil {
 		tb.Fatalf("seed artefacts: %v", err)
 	}
 	return ts
 }
 
-// TestFuzzTargets lists the targets for the driver.
-func TestFuzzTargets(t *testing.T) {
-	if os.Getenv("VERIF_FUZZ_LIST") == "" {
-		t.Skip("driver only")
-	}
-	for i, x := range targets(t) {
-		t.Logf("\nTARGET %d %s", i, x.Name)
-	}
-}
+func TestFuzzTargets(t *testing.T) { kit.List(t, targets(t)) }
 
-func FuzzC13(f *testing.F) {
-	ts := os.Getenv("VERIF_FUZZ_TARGET")
-	if ts == "" {
-		f.Skip("VERIF_FUZZ_TARGET not set")
-	}
-	idx, err := strconv.Atoi(ts)
-	all := targets(f)
-	if err != nil || idx < 0 || idx >= len(all) {
-		f.Fatalf("VERIF_FUZZ_TARGET=%q with %d targets", ts, len(all))
-	}
-	t := all[idx]
-	for _, s := range t.Seeds {
-		f.Add(s)
-	}
-	f.Add([]byte{})
-	debug.SetPanicOnFault(true)
-	f.Fuzz(func(_ *testing.T, b []byte) {
-		t.F(b)
-	})
-}
+func FuzzC13(f *testing.F) { kit.Fuzz(f, targets(f)) }
